@@ -38,6 +38,7 @@ type SpecFun struct {
 	File    string
 	Line    int
 	Trigger bool
+	Exec    string // Go expression implementing an uninterpreted spec function at run time (replay only)
 }
 
 type Axiom struct {
@@ -64,6 +65,8 @@ type FuncContract struct {
 	Trusted  string // reason why extern
 	NoPanic  bool
 	Ghosts   []*Clause // ghost statements anchored in the body
+	ReplayInputs [][2]string // name, spec expression (evaluated at entry)
+	ReplaySetup  []string    // Go statements building the receiver / environment
 }
 
 type GhostVar struct {
@@ -92,7 +95,7 @@ type EffectDecl struct {
 	File   string
 }
 
-var keywordRe = regexp.MustCompile(`^(pred|fun|axiom|func|extern|requires|ensures|modifies|loop|behavior|props|partial|pure|inline|ghost|assert-at|assume-at|effects|trusted|nopanic|panics-when|ensures-on-panic|package|const|lemma)\b`)
+var keywordRe = regexp.MustCompile(`^(exec|replay-input|replay-setup|pred|fun|axiom|func|extern|requires|ensures|modifies|loop|behavior|props|partial|pure|inline|ghost|assert-at|assume-at|effects|trusted|nopanic|panics-when|ensures-on-panic|package|const|lemma)\b`)
 
 type rawLine struct {
 	text string
@@ -190,6 +193,13 @@ func (cs *Contracts) loadFile(path string) error {
 			cs.Specs[sf.Name] = sf
 			cs.Order = append(cs.Order, sf.Name)
 			cur = nil
+		case "exec":
+			parts := strings.SplitN(rest, "=", 2)
+			sf := cs.Specs[strings.TrimSpace(parts[0])]
+			if len(parts) != 2 || sf == nil {
+				return fail(fmt.Errorf("exec needs 'name = go-expression' for a declared fun"))
+			}
+			sf.Exec = strings.TrimSpace(parts[1])
 		case "axiom", "lemma":
 			parts := strings.SplitN(rest, ":", 2)
 			if len(parts) != 2 {
@@ -259,6 +269,17 @@ func (cs *Contracts) loadFile(path string) error {
 			cur.Inline = true
 		case "nopanic":
 			cur.NoPanic = true
+		case "replay-input":
+			parts := strings.SplitN(rest, "=", 2)
+			if cur == nil || len(parts) != 2 {
+				return fail(fmt.Errorf("bad replay-input"))
+			}
+			cur.ReplayInputs = append(cur.ReplayInputs, [2]string{strings.TrimSpace(parts[0]), strings.TrimSpace(parts[1])})
+		case "replay-setup":
+			if cur == nil {
+				return fail(fmt.Errorf("replay-setup outside func"))
+			}
+			cur.ReplaySetup = append(cur.ReplaySetup, rest)
 		case "trusted":
 			cur.Trusted = rest
 		case "modifies":
